@@ -1414,6 +1414,8 @@ class Node:
         if style == "list":
             if repr is None:
                 repr = self.DEFAULT_RENDER_REPR
+            if not self._parent:
+                add_self = False  # never render the system root (see _render_lines)
             for n in self.iterator(add_self=add_self):
                 if callable(repr):
                     yield repr(n)
